@@ -36,6 +36,8 @@ func main() {
 		cmdRegoCheck(os.Args[2:])
 	case "regopaths":
 		cmdRegoPaths(os.Args[2:])
+	case "showrewrite":
+		cmdShowRewrite()
 	case "regodump":
 		cmdRegoDump(os.Args[2:])
 	default:
